@@ -190,7 +190,7 @@ class PauliList(object):
             raise NotImplementedError('multiplication is not defined for {} when factor is not 1, -1, 1j, -1j.'.format(type(self).__name__))
 
     def trace(self):
-        return numpy.where(numpy.sum(self.gs, -1) == 0, 2**self.N, 0) * 1j**self.ps
+        return numpy.where(numpy.sum(self.gs, -1) == 0, 2.**self.N, 0) * 1j**self.ps
 
     def weight(self):
         return numpy.sum(numpy.sum(self.gs.reshape(self.L, self.N, 2), -1) != 0, -1)
